@@ -117,7 +117,7 @@ Lemma app_of_other ct : str_eqb ct S_native = false -> app_of ct = Web \/ app_of
 Proof. intros H. unfold app_of. rewrite H. destruct (str_eqb ct S_web); auto. Qed.
 
 Definition lift_verdict (uri : pystr) (v : verdict) : res (pystr * qdict) :=
-  match v with VReject n => Err (Refused n) | VCustom => Ok (uri, []) | VSplit => do_split uri end.
+  match v with VReject n => Err (Refused n) | VCustom => do_split uri | VSplit => do_split uri end.
 
 Lemma verify_one_factors ct mh uri :
   verify_one ct mh uri = (p <- urlsplit uri ;; lift_verdict uri (decide (app_of ct) mh (classify p))).
